@@ -216,3 +216,101 @@ pub fn reader_steps(fx: &Fixture, op: &OpDef) -> u64 {
     reader.progress_handler(0, None::<fn() -> bool>);
     n.load(Ordering::Relaxed)
 }
+
+// ------------------------------------------------------------------------------------------------
+// Class 5 for the pool-migration snapshot reads (check_step_satisfiability, mined_height, ...)
+// ------------------------------------------------------------------------------------------------
+
+use super::migops::MigRead;
+use zcash_client_backend::data_api::WalletWrite;
+
+pub const MIG_WRITERS: [&str; 2] = ["scan_rest", "truncate"];
+
+fn mig_writer(name: &str, w: &mut Wallet, fx: &Fixture) -> Result<String, String> {
+    use zcash_protocol::consensus::BlockHeight;
+    let first = crate::universes::FIRST;
+    let r = mc_core::catch(|| match name {
+        "scan_rest" => {
+            let src = fx.u.source(0);
+            let st = fx.u.state_before(0, first + 2).clone();
+            zcash_client_backend::data_api::chain::scan_cached_blocks(&fx.u.network, &src, &mut w.db, BlockHeight::from_u32(first + 2), &st, 3).map(|_| String::new()).map_err(|e| format!("{e:?}"))
+        }
+        _ => w.db.truncate_to_height(BlockHeight::from_u32(first)).map(|h| format!("{h:?}")).map_err(|e| format!("{e:?}")),
+    });
+    match r {
+        Ok(x) => x,
+        Err(p) => Err(format!("PANIC {p}")),
+    }
+}
+
+fn mig_setup(fx: &Fixture, rd: &MigRead, wal: bool) -> (Wallet, Connection) {
+    let mut w = db::new_wallet(&fx.u, 4, true);
+    db::restore(w.db.conn_mut(), &fx.pres[1]);
+    w.refresh_accounts();
+    (rd.setup)(&mut w, &fx.u);
+    if wal {
+        let _: String = w.db.conn().query_row("PRAGMA journal_mode=WAL", [], |r| r.get(0)).expect("journal mode");
+    }
+    let reader = Connection::open(db_path(w.db.conn())).expect("second connection");
+    rusqlite::vtab::array::load_module(&reader).expect("array module");
+    (w, reader)
+}
+
+pub fn mig_reader_steps(fx: &Fixture, rd: &MigRead) -> u64 {
+    let (w, reader) = mig_setup(fx, rd, false);
+    let n = Arc::new(AtomicU64::new(0));
+    let c = n.clone();
+    reader.progress_handler(
+        1,
+        Some(move || {
+            c.fetch_add(1, Ordering::Relaxed);
+            false
+        }),
+    );
+    let _ = (rd.read)(&reader, &fx.u, w.acct_a);
+    reader.progress_handler(0, None::<fn() -> bool>);
+    n.load(Ordering::Relaxed)
+}
+
+pub fn mig_reader_interrupted(fx: &Fixture, rd: &MigRead, writer: &'static str, wal: bool, at_step: u64) -> Result<String, String> {
+    let (w, reader) = mig_setup(fx, rd, wal);
+    let acct = w.acct_a;
+    let pre = (rd.read)(&reader, &fx.u, acct).map_err(|e| format!("MACHINERY: {}: pre-state read failed: {e}", rd.name))?;
+    let w = Arc::new(Mutex::new(w));
+    let wrote: Arc<Mutex<Option<Result<String, String>>>> = Arc::new(Mutex::new(None));
+    {
+        let w = w.clone();
+        let wrote = wrote.clone();
+        let fxp = fx as *const Fixture as usize;
+        let n = AtomicU64::new(0);
+        reader.progress_handler(
+            1,
+            Some(move || {
+                let k = n.fetch_add(1, Ordering::Relaxed) + 1;
+                if k == at_step {
+                    let fx: &Fixture = unsafe { &*(fxp as *const Fixture) };
+                    let mut w = w.lock().unwrap();
+                    *wrote.lock().unwrap() = Some(mig_writer(writer, &mut w, fx));
+                }
+                false
+            }),
+        );
+    }
+    let got = (rd.read)(&reader, &fx.u, acct);
+    reader.progress_handler(0, None::<fn() -> bool>);
+    let wrote = wrote.lock().unwrap().clone();
+    let Some(wres) = wrote else { return Ok("reader-finished-before-step".into()) };
+    let post = (rd.read)(&reader, &fx.u, acct).map_err(|e| format!("MACHINERY: {}: post-state read failed: {e}", rd.name))?;
+    let got = got.map_err(|e| format!("{}: the read failed while the writer {writer} ran at its VM step {at_step}: {e}", rd.name))?;
+    if got == pre {
+        Ok(format!("answer==pre,writer-{}", if wres.is_ok() { "ok" } else { "blocked" }))
+    } else if got == post {
+        Ok("answer==post".into())
+    } else {
+        Err(format!(
+            "{} ({}): interleaved with the complete writer operation {writer} at the reader's VM step {at_step}, the read answered {got:?}, which is neither its answer on the pre-state ({pre:?}) nor on the post-state ({post:?})",
+            rd.name,
+            if wal { "WAL" } else { "rollback journal" }
+        ))
+    }
+}
